@@ -6,6 +6,7 @@ import (
 	"os"
 	"os/exec"
 	"path/filepath"
+	"regexp"
 	"strings"
 )
 
@@ -15,6 +16,71 @@ import (
 // HEAD; a case that panics or hangs on the working tree, or whose outcome differs from the baseline, is
 // the failing input. The verdict was already reached deductively; this only finds the witness.
 func tryReplay(eng *Engine, verifDir, prop string, g *oblGroup, rec map[string]interface{}) bool {
+	return tryReplayName(eng, verifDir, g.Name, rec, false)
+}
+
+// replayFamily: which slice of the corpus exercises the function an obligation belongs to.
+func replayFamily(name string) string {
+	switch {
+	case strings.HasPrefix(name, "lexer.") || strings.HasPrefix(name, "parser.") || strings.HasPrefix(name, "ast."):
+		return "parse"
+	case strings.HasPrefix(name, "iterators.") || strings.HasPrefix(name, "meta.") || strings.HasPrefix(name, "text.") ||
+		strings.Contains(name, "ranger") || strings.Contains(name, "roupBy") || strings.Contains(name, "verifDrain"):
+		return "helpers"
+	}
+	return "render"
+}
+
+// materialDiff: the two outcomes differ in something a property speaks about - success vs failure,
+// the rendered output, the 'line N:' prefix, whether the original error is still wrapped, the helper
+// calls made - and not merely in the wording of an error message.
+func materialDiff(cur, base string) bool {
+	if cur == base {
+		return false
+	}
+	cls := func(s string) string {
+		s = strings.TrimPrefix(s, "\"")
+		switch {
+		case strings.HasPrefix(s, "OK"):
+			return "OK"
+		case strings.HasPrefix(s, "ERR"):
+			return "ERR"
+		case strings.HasPrefix(s, "PANIC"):
+			return "PANIC"
+		case strings.HasPrefix(s, "HANG"):
+			return "HANG"
+		}
+		return "VAL"
+	}
+	if cls(cur) != cls(base) {
+		return true
+	}
+	if cls(cur) != "ERR" {
+		return true
+	}
+	key := func(s string) string {
+		s = strings.TrimPrefix(s, "\"")
+		k := ""
+		if m := replayLineRe.FindString(s); m != "" {
+			k = m
+		}
+		if i := strings.Index(s, " | is-sentinel="); i >= 0 {
+			k += s[i:]
+		}
+		if i := strings.Index(s, " || "); i >= 0 {
+			k += s[i:]
+		}
+		return k
+	}
+	return key(cur) != key(base)
+}
+
+var replayLineRe = regexp.MustCompile(`^ERR line \d+:`)
+
+// tryReplayName: materialOnly is set when the replay is the deciding step (an obligation that could not
+// be decided deductively - new code, or a contract that no longer binds): then only a panic, a hang or a
+// material difference from HEAD counts.
+func tryReplayName(eng *Engine, verifDir, name string, rec map[string]interface{}, materialOnly bool) bool {
 	if os.Getenv("VERIF_NO_REPLAY") != "" {
 		return false
 	}
@@ -25,15 +91,12 @@ func tryReplay(eng *Engine, verifDir, prop string, g *oblGroup, rec map[string]i
 			return false
 		}
 	}
-	family := "render"
-	switch {
-	case strings.HasPrefix(g.Name, "lexer.") || strings.HasPrefix(g.Name, "parser.") || strings.HasPrefix(g.Name, "ast."):
-		family = "parse"
-	case strings.HasPrefix(g.Name, "iterators.") || strings.HasPrefix(g.Name, "meta.") || strings.HasPrefix(g.Name, "text.") ||
-		strings.Contains(g.Name, "ranger") || strings.Contains(g.Name, "roupBy") || strings.Contains(g.Name, "verifDrain"):
-		family = "helpers"
+	family := replayFamily(name)
+	ck := family
+	if materialOnly {
+		ck += "/material"
 	}
-	if cached, ok := replayCache[family]; ok {
+	if cached, ok := replayCache[ck]; ok {
 		return applyReplay(cached, rec)
 	}
 	tmp, err := os.MkdirTemp("", "pvreplay")
@@ -54,7 +117,7 @@ func tryReplay(eng *Engine, verifDir, prop string, g *oblGroup, rec map[string]i
 	res := &replayOutcome{}
 	if _, statErr := os.Stat(curOut); statErr != nil {
 		res.note = "replay harness did not run on the working tree: " + truncate(string(out), 400)
-		replayCache[family] = res
+		replayCache[ck] = res
 		return applyReplay(res, rec)
 	}
 	_ = err
@@ -96,16 +159,24 @@ func tryReplay(eng *Engine, verifDir, prop string, g *oblGroup, rec map[string]i
 				res.base = base[k]
 			}
 			res.cases = len(cur.order)
-			replayCache[family] = res
+			replayCache[ck] = res
 			return applyReplay(res, rec)
 		}
 	}
 	// 2. first behavioural difference from the baseline
 	if base != nil {
 		for _, k := range cur.order {
-			if b, ok := base[k]; ok && b != cur.m[k] {
+			if b, ok := base[k]; ok && b != cur.m[k] && materialDiff(cur.m[k], b) {
 				res.found, res.key, res.cur, res.base = true, k, cur.m[k], b
 				break
+			}
+		}
+		if !res.found && !materialOnly {
+			for _, k := range cur.order {
+				if b, ok := base[k]; ok && b != cur.m[k] {
+					res.found, res.key, res.cur, res.base = true, k, cur.m[k], b
+					break
+				}
 			}
 		}
 	}
@@ -113,7 +184,7 @@ func tryReplay(eng *Engine, verifDir, prop string, g *oblGroup, rec map[string]i
 	if !res.found {
 		res.note = fmt.Sprintf("replay harness: %d cases on the real code, none panics, hangs or differs from the baseline (HEAD)", len(cur.order))
 	}
-	replayCache[family] = res
+	replayCache[ck] = res
 	return applyReplay(res, rec)
 }
 
